@@ -15,9 +15,13 @@ Fibers of one rank are serialized in depth-first order."""
 import math
 
 
-def decode(out, ids, desc, dims):
+def decode(out, ids, desc, dims, default=0):
     """Independent decoder: per-rank coords_* / payloads_* arrays ->
-    (content, ranks).  content is the dict point -> non-zero value; ranks[l]
+    (content, ranks).  content is the dict point -> value of every stored leaf
+    word that differs from the tensor's leaf default (a position that stores
+    nothing reads as that default, so a stored default and an absent position
+    are the same content; with the usual default 0: point -> non-zero value;
+    under a non-zero default a stored 0 is an ordinary element); ranks[l]
     lists the fibers of rank l in serialization order, each a dict with
     `coords` (the coordinates the layout presents), `values` (leaf rank) or
     `children` (positions of the child fibers in rank l+1).  Raises ValueError
@@ -53,7 +57,7 @@ def decode(out, ids, desc, dims):
         if leaf:
             ent["values"] = list(take(pk, cp, d, n, "payloads"))
             for c, v in zip(coords, ent["values"]):
-                if v != 0:
+                if v != default:
                     res[prefix + (c,)] = v
         elif desc[d + 1] in "CB":
             prev = 0
